@@ -739,3 +739,91 @@ def _only_other_fields(d, didx):
 
     mir.walk(d, v)
     return not bad
+
+
+# ---------------------------------------------------------------------------------------------------------------------
+# R-OMIT-SCOPE (C03, C04): the steps of a pipeline do not inherit the one-way modifiers of its invocation
+
+@rule("R-OMIT-SCOPE", ["C03", "C04"])
+def r_omit_scope(cx):
+    """`omit_fwd` / `omit_inv` given with a macro invocation end up in the globals of its body. They concern the body
+    as a whole (the enclosing pipeline skips it), not the steps inside: every step reads its modifiers through
+    chase(globals, locals), so an inherited one would make the inner steps skip themselves when the (inverted) body
+    runs in the other direction. In pipeline::new, every path to the construction of a step (the `next(&step)` call
+    in the loop over the steps) passes through the removal of both keys from the globals the steps are built from."""
+    c = pipeline_ctor(cx)
+    f = cx.f.fn(c.path)
+    lp = None
+    nexts = []
+    for l in f.loops():
+        for bb, t in f.calls():
+            if bb in l.body and (f.callee(t) or "") == "op::raw_parameters::RawParameters::next":
+                lp = l
+                nexts.append(bb)
+    n = 0
+    if lp is None:
+        cx.ob("R-OMIT-SCOPE", "pipeline/steps", False, "anchor-missing: no loop over the steps calling RawParameters::next",
+              cx.where(f.d["span"]))
+        return
+    rem = {}
+    for bb, t in f.calls():
+        if (f.callee(t) or "").endswith("BTreeMap::<K, V, A>::remove"):
+            a = f.arg_terms(bb)
+            k = K._const_key(a[1]) if len(a) > 1 else None
+            rem.setdefault(k, []).append((bb, a[0]))
+    for key in ("omit_fwd", "omit_inv"):
+        n += 1
+        sites = rem.get(key, [])
+        ok = bool(sites)
+        why = "the key is never removed"
+        if ok:
+            # (1) on every path into the loop, (2) from the very value the steps are derived from
+            if lp.header in f.reach_from([0], avoid=tuple(b for b, _ in sites)):
+                ok = False
+                why = "the removal is skipped on some path"
+            else:
+                recv_roots = set()
+                for bb in nexts:
+                    r = f.term(bb)["args"][0]
+                    pl = mir.op_place(r)
+                    if pl is not None:
+                        recv_roots.add(_root_local_of(f, pl["l"]))
+                rem_roots = set()
+                for bb, a0 in sites:
+                    pl = mir.op_place(f.term(bb)["args"][0])
+                    if pl is not None:
+                        rem_roots.add(_root_local_of(f, pl["l"]))
+                if not (recv_roots and recv_roots <= rem_roots):
+                    ok = False
+                    why = "the removal is applied to another value than the one the steps are built from"
+        cx.ob("R-OMIT-SCOPE", "pipeline/%s" % key, ok,
+              "the steps are built from globals from which `%s` has been removed" % key if ok else
+              "pipeline::new hands the invocation's `%s` down to every step of the body (%s): a macro invoked with "
+              "`inv %s` then skips its own steps from the inside when run in the other direction" % (key, why, key),
+              cx.where(f.term(nexts[0])["span"]))
+    cx.count("R-OMIT-SCOPE", "keys", n)
+
+
+def _root_local_of(f, l):
+    """the variable a reference temporary points into (through reborrows and field projections)"""
+    for _ in range(8):
+        if f.name_of_local.get(l):
+            return l
+        defs = f.defs().get(l, ())
+        if len(defs) != 1:
+            return l
+        bb, i, kind = defs[0][0], defs[0][1], defs[0][2]
+        if kind != "full" or i is None or i >= len(f.stmts(bb)):
+            return l
+        s = f.stmts(bb)[i]
+        rv = s["rv"]
+        if rv["k"] in ("ref", "rawptr"):
+            l = rv["place"]["l"]
+        elif rv["k"] in ("use", "cast"):
+            p = mir.op_place(rv["a"])
+            if p is None:
+                return l
+            l = p["l"]
+        else:
+            return l
+    return l
